@@ -26,9 +26,11 @@ const TRAIN_CHARS: &[char] = &['a', 'b', 'A', '1', 'あ', 'ア', '京', '都', '
 
 fn gen_train_feature(rng: &mut Rng) -> String {
     let pos = format!("P{}", rng.below(3));
-    let sub = match rng.below(5) {
+    let sub = match rng.below(8) {
         0 => "*".to_string(),
         1 => "\"s,q\"".to_string(),
+        // a value that starts with a double quote and has no comma (needs CSV quoting all the same)
+        2 => "\"\"\"in\"".to_string(),
         _ => format!("S{}", rng.below(3)),
     };
     match rng.below(6) {
@@ -129,7 +131,7 @@ pub fn gen_train_world(rng: &mut Rng, plan: &mut Plan) {
     rng.shuffle(&mut idx);
     // B6's right side is a bare %R[1], which expands to a literal "*" for features like "P1,*"
     // (the shape of known finding KF-C16-1): kept, but only in about one world in ten
-    if !rng.chance(1, 10) {
+    if !rng.chance(1, 5) {
         idx.retain(|&i| i != 6);
     }
     for &i in idx.iter().take(n_bi) {
@@ -140,11 +142,16 @@ pub fn gen_train_world(rng: &mut Rng, plan: &mut Plan) {
     for sec in ["[unigram rewrite]", "[left rewrite]", "[right rewrite]"] {
         rw.push_str(sec);
         rw.push('\n');
-        match rng.below(5) {
+        match rng.below(8) {
             0 => {}
             1 => rw.push_str("*,*,*  $1,$2,$3\n"),
             2 => rw.push_str("P0,*  PX,$2\n*,*,*  $1,$2,$3\n"),
             3 => rw.push_str("(P0|P1),*,*  $1,*,$3\n"),
+            // a shorter rule registered before a longer one that shares its pattern prefix (the
+            // shorter one must keep winning), and the other way round
+            4 => rw.push_str("*,*  $1,$2\n*,*,*  $1,$2,LONG\n"),
+            5 => rw.push_str("P0  SHORT\nP0,*  MID,$2\nP0,*,*  LONG,$2,$3\n*,*,*  $1,$2,$3\n"),
+            6 => rw.push_str("*,*,*  $1,$2,LONG\n*,*  $1,$2\n"),
             _ => rw.push_str("*,*  $1,$2\n"),
         }
         if rng.chance(1, 3) {
@@ -215,6 +222,40 @@ pub fn gen_train_world(rng: &mut Rng, plan: &mut Plan) {
     plan.set_file("corpus.txt", corpus);
     plan.set_file("user.csv", user);
     plan.set_param("max_iter", rng.range(5, 30));
+}
+
+/// A world with many connection classes (one per word) and a dense corpus: the generated matrix.def
+/// and bigram.cost exceed the 8 KiB buffer of the internal BufWriters, so that large writes bypass
+/// the buffer and reach the caller's sink directly.
+pub fn gen_big_train_world(rng: &mut Rng, plan: &mut Plan) {
+    let t = 36 + rng.usize(10);
+    let letters: Vec<char> = "abcdefghijklmnopqrstuvwxyz".chars().collect();
+    let mut words = vec![];
+    let mut lex = String::new();
+    for i in 0..t {
+        let s: String = [letters[i % 26], letters[(i / 26 + i * 7) % 26], letters[(i * 3) % 26]].iter().collect();
+        let f = format!("T{i},S{},R{}", i % 3, i % 2);
+        lex.push_str(&format!("{s}{i},0,0,0,{f}\n"));
+        words.push((format!("{s}{i}"), f));
+    }
+    let mut corpus = String::new();
+    for _ in 0..40 + rng.usize(20) {
+        for _ in 0..20 + rng.usize(10) {
+            let (s, f) = rng.pick(&words);
+            corpus.push_str(&format!("{s}\t{f}\n"));
+        }
+        corpus.push_str("EOS\n");
+    }
+    plan.set_file("lex.csv", lex);
+    plan.set_file("char.def", "DEFAULT 0 1 0\nALPHA 1 1 0\nNUM 1 1 0\n0x0061..0x007A ALPHA\n0x0030..0x0039 NUM\n");
+    plan.set_file("unk.def", "DEFAULT,0,0,0,UNKP,*,*\nALPHA,0,0,0,UNKA,*,*\nNUM,0,0,0,UNKN,*,*\n");
+    plan.set_file("feature.def", "UNIGRAM U0:%F[0]\nUNIGRAM U1:%F[1]\nBIGRAM B0:%L[0]/%R[0]\nBIGRAM B1:%L[1]/%R[2]\n");
+    plan.set_file("rewrite.def", "[unigram rewrite]\n[left rewrite]\n[right rewrite]\n");
+    plan.set_file("corpus.txt", corpus);
+    let (us, uf) = rng.pick(&words).clone();
+    plan.set_file("user.csv", format!("{us}x,0,0,0,{uf}\nzz9,1,1,7,T0,S0,R0\n"));
+    plan.set_param("max_iter", rng.range(2, 4));
+    plan.set_param("big_world", 1);
 }
 
 /// Trains the plan's model. Ok(None): configuration rejected or training did not succeed (outside
@@ -338,13 +379,32 @@ pub fn write_bigram_details(model: &mut Model, op: Option<&Op>, ctx: &mut Ctx) -
     )
 }
 
-fn must_ok(prefix: &str, what: &str, o: SinkOutcome) -> Check {
+pub const KF_RUCRF: &str = "KF-RUCRF-1";
+use crate::core::STOP;
+
+/// Structural predicate of known finding KF-RUCRF-1: the trained model has no bigram weight at all
+/// (`bigram_weight_indices` is empty: no bigram template ever applied during training) and a user
+/// lexicon was read afterwards. `rucrf::RawModel::merge()` then indexes `bigram_weight_indices[0]`
+/// for the user rows' features and panics.
+fn rucrf_gap(model: &Model) -> bool {
+    model.verif_raw_model().bigram_weight_indices().is_empty() && !model.verif_user_entries().is_empty()
+}
+
+fn must_ok(prefix: &str, what: &str, o: SinkOutcome, gap: bool, ctx: &mut Ctx) -> Check {
     match o.result {
         Ok(Ok(())) => Ok(()),
         Ok(Err(e)) => Err(Violation::new(&format!("{prefix}.err"), format!("{what} failed without any fault: {e}"))),
+        Err(p) if gap && p.file.contains("rucrf") && p.file.ends_with("src/model.rs") => {
+            ctx.known_finding(
+                KF_RUCRF,
+                &format!("{what} panics inside rucrf::RawModel::merge() for a model without any bigram weight after read_user_lexicon: {}", p.brief()),
+            )?;
+            Err(Violation::new(STOP, ""))
+        }
         Err(p) => Err(panic_violation(prefix, what, &p)),
     }
 }
+
 
 /// (surface unquoted, three numeric fields verbatim, feature verbatim) of a lexicon-style row.
 pub fn split_lex_row(line: &str) -> Option<(String, [String; 3], String)> {
@@ -688,7 +748,11 @@ impl Scenario for ExportScenario {
     }
     fn plan(&self, rng: &mut Rng, _tier: Tier, seed: u64, run: u64) -> Plan {
         let mut plan = Plan::new("C14", seed, run);
-        gen_train_world(rng, &mut plan);
+        if rng.chance(1, 30) {
+            gen_big_train_world(rng, &mut plan);
+        } else {
+            gen_train_world(rng, &mut plan);
+        }
         if rng.chance(2, 3) {
             if rng.chance(2, 3) {
                 // warm the merged-model cache (and whatever else an export computes) before the
@@ -739,16 +803,19 @@ impl Scenario for ExportScenario {
                 }
                 "Gen" => {
                     let (o, files) = write_dictionary(&mut model, None, ctx);
-                    must_ok("C14.gen", "write_dictionary", o)?;
+                    must_ok("C14.gen", "write_dictionary", o, rucrf_gap(&model), ctx)?;
                     check_dictionary_image(plan, &model, &files, ctx)?;
                     ctx.observations += 1;
+                    if files.matrix.len() > 8192 {
+                        ctx.count("probe.matrix_def_over_8k");
+                    }
                     ctx.event("gen", &format!("{}+{}+{}+{} bytes = reference image", files.lex.len(), files.matrix.len(), files.unk.len(), files.user.len()));
                     reference = Some(files);
                 }
                 "GenBenign" => {
                     let Some(reference) = reference.as_ref() else { continue };
                     let (o, files) = write_dictionary(&mut model, Some(op), ctx);
-                    must_ok("C14.gen_benign", "write_dictionary through short writes/EINTR", o)?;
+                    must_ok("C14.gen_benign", "write_dictionary through short writes/EINTR", o, rucrf_gap(&model), ctx)?;
                     if &files != reference {
                         return Err(Violation::new("C14.benign.bytes", "files written through short-write/EINTR sinks differ from the plain ones"));
                     }
@@ -757,6 +824,9 @@ impl Scenario for ExportScenario {
                 }
                 "GenFault" => {
                     let Some(reference) = reference.as_ref() else { continue };
+                    if rucrf_gap(&model) {
+                        continue;
+                    }
                     let sink = op.str(0);
                     if !DICT_SINKS.contains(&sink) {
                         continue;
@@ -831,6 +901,7 @@ impl Scenario for ExportScenario {
                 "probe.max_weight_is_unigram",
                 "probe.max_weight_is_matrix_entry",
                 "probe.fault_in_last_buffer",
+                "probe.matrix_def_over_8k",
                 "fault.short_transfer",
                 "fault.interrupted",
                 "fault.hard",
@@ -917,10 +988,11 @@ struct ModelReplica {
 }
 
 fn gen_all(m: &mut Model, ctx: &mut Ctx, prefix: &str) -> Result<(DictFiles, BigramFiles), Violation> {
+    let gap = rucrf_gap(m);
     let (o, d) = write_dictionary(m, None, ctx);
-    must_ok(&format!("{prefix}.dict"), "write_dictionary", o)?;
+    must_ok(&format!("{prefix}.dict"), "write_dictionary", o, gap, ctx)?;
     let (o, b) = write_bigram_details(m, None, ctx);
-    must_ok(&format!("{prefix}.bigram"), "write_bigram_details", o)?;
+    must_ok(&format!("{prefix}.bigram"), "write_bigram_details", o, gap, ctx)?;
     Ok((d, b))
 }
 
@@ -1220,7 +1292,11 @@ impl Scenario for SmallDicScenario {
     }
     fn plan(&self, rng: &mut Rng, _tier: Tier, seed: u64, run: u64) -> Plan {
         let mut plan = Plan::new("C16", seed, run);
-        gen_train_world(rng, &mut plan);
+        if rng.chance(1, 30) {
+            gen_big_train_world(rng, &mut plan);
+        } else {
+            gen_train_world(rng, &mut plan);
+        }
         plan.ops.push(Op::new("Gen"));
         plan.ops.push(
             Op::new("GenBenign")
@@ -1261,12 +1337,15 @@ impl Scenario for SmallDicScenario {
             match op.kind.as_str() {
                 "Gen" => {
                     generated = Some(gen_all(&mut model, ctx, "C16.gen")?);
+                    if generated.as_ref().is_some_and(|g| g.1.cost.len() > 8192) {
+                        ctx.count("probe.bigram_cost_over_8k");
+                    }
                     ctx.event("gen", "ok");
                 }
                 "GenBenign" => {
                     let Some((_, b)) = generated.as_ref() else { continue };
                     let (o, files) = write_bigram_details(&mut model, Some(op), ctx);
-                    must_ok("C16.gen_benign", "write_bigram_details through short writes/EINTR", o)?;
+                    must_ok("C16.gen_benign", "write_bigram_details through short writes/EINTR", o, rucrf_gap(&model), ctx)?;
                     if files.left != b.left || files.right != b.right || sorted_lines(&files.cost) != sorted_lines(&b.cost) {
                         return Err(Violation::new("C16.benign.bytes", "bigram files written through short-write/EINTR sinks differ from the plain ones"));
                     }
@@ -1418,6 +1497,7 @@ impl Scenario for SmallDicScenario {
             probes: vec![
                 "probe.nonzero_rounding_difference",
                 "probe.at_least_2_classes_per_side",
+                "probe.bigram_cost_over_8k",
                 "fault.short_transfer",
                 "fault.interrupted",
                 "fault.hard",
